@@ -442,10 +442,10 @@ class Tr:
         return "PTable" if r is None else f"(PTable × {LEAN_TY[r]})"
 
     def osig(self):
-        return " (o : PTable)" if self.spec.get("other") else ""
+        return " (o : PTable)" if self.spec.get("other") not in (None, "self") else ""
 
     def oarg(self):
-        return "o " if self.spec.get("other") else ""
+        return "o " if self.spec.get("other") not in (None, "self") else ""
 
     # --- lvalues: ('local', name) | ('member', leanfield, ty) | ('field', addr-expr, fieldname) | ('cellof', expr) | ('heads', idx)
     def lvalue(self, e, env):
@@ -493,6 +493,14 @@ class Tr:
             if t is None:
                 self.refuse(f"`{e[1]}` is read before it is assigned")
             return k(t, ty, env, ind)
+        if self.spec.get("other") == "self":
+            # the member is called with the object itself as `other`: `other.x` IS `x`
+            if e == ("dot", ("dot", ("id", "other"), "_begin"), "item"):
+                return self.ev(("dot", ("id", "_begin"), "item"), env, ind, k)
+            if e == ("addr", ("dot", ("id", "other"), "endItem")):
+                return k("(Nxt.stl t.self)", "nxt", env, ind)
+            if e == ("dot", ("id", "other"), "_size"):
+                return k("t.size", "nat", env, ind)
         if e == ("dot", ("dot", ("id", "other"), "_begin"), "item") and self.spec.get("other"):
             return k("o.begin", "nxt@B", env, ind)
         if e == ("addr", ("dot", ("id", "other"), "endItem")) and self.spec.get("other"):
@@ -717,6 +725,8 @@ class Tr:
             # `this == &other`: `o` is ANOTHER object (the call with the object itself is the model's `assignSelf`)
             if not self.spec.get("other"):
                 self.refuse("`this == &other` without a parameter `other`")
+            if self.spec.get("other") == "self":
+                return (kthen if c[1] == "==" else kelse)(env, ind)
             return (kelse if c[1] == "==" else kthen)(env, ind)
         if c[0] == "bin" and c[1] in ("==", "!="):
             def after_a(ta, tya, env2, ind2):
@@ -998,8 +1008,9 @@ class Swap:
     MEM = {"_begin.item": ("begin", "nxt"), "endItem.prev": ("endPrev", "opt"), "freeItem": ("freeItem", "opt"),
            "data": ("data", "data"), "blocks": ("blocks", "blocks"), "_size": ("size", "nat"), "capacity": ("cap", "nat")}
 
-    def __init__(self, cls):
-        self.cls, self.n = cls, 0
+    def __init__(self, cls, alias=False):
+        self.cls, self.n, self.alias = cls, 0, alias
+        self.objs = "A" if alias else "AB"
 
     def refuse(self, msg):
         raise Refuse(f"{self.cls}::swap: {msg}")
@@ -1022,14 +1033,14 @@ class Swap:
             return None
         obj = "A"
         if f.startswith("other."):
-            obj, f = "B", f[len("other."):]
+            obj, f = ("A" if self.alias else "B"), f[len("other."):]
         return (obj, f) if f in self.MEM else None
 
     def translate(self, stmts):
         st = {o: {"_begin.item": (f"{o}.begin", "nxt", o), "endItem.prev": (f"{o}.endPrev", "opt", o),
                   "freeItem": (f"{o}.freeItem", "opt", o), "data": ((f"{o}.allocated", f"{o}.heads"), "data", o),
                   "blocks": (f"{o}.blocks", "blocks", o), "_size": (f"{o}.size", "nat", None),
-                  "capacity": (f"{o}.cap", "nat", None)} for o in "AB"}
+                  "capacity": (f"{o}.cap", "nat", None)} for o in self.objs}
         return self.run(self.flatten(stmts), st, {}, {}, "  ")
 
     def flatten(self, stmts):
@@ -1049,7 +1060,7 @@ class Swap:
             if e[1] == ("id", "endItem"):
                 return ("(Nxt.stl A.self)", "nxt", None)
             if e[1] == ("dot", ("id", "other"), "endItem"):
-                return ("(Nxt.stl B.self)", "nxt", None)
+                return (f"(Nxt.stl {'A' if self.alias else 'B'}.self)", "nxt", None)
             self.refuse("address-of other than `&endItem` / `&other.endItem`")
         v = None
         if e[0] == "id" and e[1] in loc:
@@ -1130,7 +1141,7 @@ class Swap:
                 self.refuse(f"statement `{k}` is outside the translated subset")
             self.value_nn = lambda e: self.value(e, st, loc, nn)
         res = []
-        for o in "AB":
+        for o in self.objs:
             d = st[o]
             heaps = {d[f][2] for f in ("_begin.item", "endItem.prev", "freeItem", "data", "blocks")}
             heaps.discard(None)
@@ -1143,6 +1154,8 @@ class Swap:
             res.append(f"{{ self := {o}.self, cap := {d['capacity'][0]}, allocated := {d['data'][0][0]}, heads := {d['data'][0][1]}, "
                        f"items := h{hp}, begin := {d['_begin.item'][0]}, endPrev := {d['endItem.prev'][0]}, size := {d['_size'][0]}, "
                        f"freeItem := {d['freeItem'][0]}, blocks := {d['blocks'][0]}, ipb := {hp}.ipb, dcap := {hp}.dcap }}")
+        if self.alias:
+            return lines + [f"{ind}some {res[0]}"]
         return lines + [f"{ind}some ({res[0]},", f"{ind}      {res[1]})"]
 
 
@@ -1171,6 +1184,11 @@ def specs_for(cls):
                           "params": [], "ret": None, "other": True}
         s["removeAll"] = {"lean": "removeAll", "rx": r"void\s+remove\s*\(\s*const\s+HashSet\s*&\s*other\s*\)",
                           "params": [], "ret": None, "other": True}
+    if cls != "PoolMap":
+        s["assignSelf"] = dict(s["assign"], lean="assignSelf", other="self")
+    if cls == "HashSet":
+        s["appendSelf"] = dict(s["appendAll"], lean="appendSelf", other="self")
+        s["removeSelf"] = dict(s["removeAll"], lean="removeSelf", other="self")
     if cls == "PoolMap":
         s["removeValue"] = {"lean": "removeValue", "rx": r"void\s+remove\s*\(\s*const\s+V\s*&\s*value\s*\)",
                             "params": [("value", "item")], "ret": None, "value_item": True}
@@ -1178,7 +1196,7 @@ def specs_for(cls):
 
 
 ORDER = ["find", "removeValue", "removeIt", "removeKey", "removeFront", "removeBack", "insert", "clear", "assign", "appendAll",
-         "removeAll", "equal"]
+         "removeAll", "equal", "assignSelf", "appendSelf", "removeSelf"]
 
 
 class Gen:
@@ -1260,6 +1278,8 @@ class Gen:
         sw = Swap(cls)
         lines = sw.translate(stmts)
         parts.append("def swap (A B : PTable) : Option (PTable × PTable) :=\n  let hA := A.items\n  let hB := B.items\n" + "\n".join(lines) + "\n")
+        lines = Swap(cls, alias=True).translate(stmts)
+        parts.append("/-- `a.swap(a)`: `other` is the object itself -/\ndef swapSelf (A : PTable) : Option PTable :=\n  let hA := A.items\n" + "\n".join(lines) + "\n")
         summary.append(f"swap:{len(stmts)}")
         return parts, f"{cls}({' '.join(summary)} stmts)"
 
